@@ -420,7 +420,9 @@ func (s *Sim) loop() {
 			s.st.Truncated = "max_events"
 			break
 		}
-		s.now = ev.At
+		if ev.At > s.now { // (a hand-delivered prefix may have moved the clock past queued events)
+			s.now = ev.At
+		}
 		s.st.Events++
 		s.st.Probe["ev:"+evNames[ev.Kind]]++
 		s.dispatch(ev)
